@@ -59,11 +59,17 @@ def verdict(name, args, got):
         want = tuple(res[1:])
         ok = isinstance(got, tuple) and tuple(got) == want
         return None if ok else f"{desc}, the recurrence first reaches the budget at {want!r}"
+    accum = "clear"
+    if len(args) == 5:
+        if name != "move_dist_t3":
+            return None
+        accum = args[4]
+        args = args[:4]
     ticks, rate, accel, jerk = args
     if not _ints(args) or ticks < 1 or not t3_in_domain(rate, accel, jerk, ticks):
         return None
     if name == "move_dist_t3":
-        want = split31(t3_total_closed(rate, accel, jerk, "clear", ticks))
+        want = split31(t3_total_closed(rate, accel, jerk, accum, ticks))
         ok = isinstance(got, tuple) and len(got) == 2 and tuple(got) == want
         return None if ok else f"{desc}, firmware recurrence gives {want!r}"
     if name == "rate_t3":
@@ -127,6 +133,9 @@ def run_history(target, args):
 
 
 NVALS = [-2, -1, 0, 1, 2, 300]
+UNRELATED = {"move_dist_lt": (12345, 67, 89, 1011), "calculate_lm": (13, 12345, 67, 1011),
+             "move_dist_t3": (89, 12345, 67, -3, 1011), "rate_t3": (89, 12345, 67, -3),
+             "max_rate_t3": (89, 12345, 67, -3)}
 
 
 def _accum_ok(target, args):
@@ -143,6 +152,13 @@ def neighbours(args):
             continue
         for other in {val - 1, val + 1, -val} - {val}:
             out.append(tuple(args[:pos]) + (other,) + tuple(args[pos + 1:]))
+    # the same move with another kind of start accumulator (explicit number <-> "clear"), and
+    # with another duration: what one call remembers about "this segment" must not leak into
+    # the next call that differs only there
+    if args and (args[-1] == "clear" or (len(args) in (4, 5) and isinstance(args[-1], int))):
+        for other in ("clear", 0, 5, TWO31 - 1):
+            if other != args[-1]:
+                out.append(tuple(args[:-1]) + (other,))
     return out
 
 
@@ -151,10 +167,13 @@ def run_neighbour(target, args, first):
     recent results indexed by something weaker than the arguments hands the first answer out
     again.  Returns [message]."""
     func = getattr(_lib(), target)
-    try:
-        func(*first)
-    except Exception:                       # pylint: disable=broad-except
-        pass
+    # an unrelated call first, so that every history starts from the same "most recent call"
+    # (a one-entry memo is displaced; the pair below is then on its own)
+    for warm in (UNRELATED[target], first):
+        try:
+            func(*warm)
+        except Exception:                   # pylint: disable=broad-except
+            pass
     try:
         got = func(*args)
     except Exception as exc:                # pylint: disable=broad-except
@@ -329,8 +348,13 @@ def explore(ctx, targets):
     part = core.fan_out(ctx, chunk, jobs)
     near = list(itertools.product(NVALS, repeat=4))
     near += [t + (core.RUNTIME_CLEAR,) for t in itertools.product(NVALS, repeat=3)]
+    # T3 moves with an explicit / cleared accumulator (five arguments), both directions
+    near += [(ticks, rate, accel, jerk, acc) for ticks in (1, 2, 22) for rate in (-490123456, -2, 3)
+             for accel in (0, -1, 2) for jerk in (0, 1, -100000) for acc in (core.RUNTIME_CLEAR, 0, 7)]
     jobs = [(t, [a for a in items
-                 if not (t in ("rate_t3", "max_rate_t3", "move_dist_t3") and a[-1] == "clear")])
+                 if (len(a) == 5) == (t == "move_dist_t3" and len(a) == 5) and
+                 not (len(a) == 4 and t in ("rate_t3", "max_rate_t3", "move_dist_t3") and
+                      a[-1] == "clear")])
             for t in targets for items in core.split(near, 8)]
     part.merge(core.fan_out(ctx, neighbour_chunk, jobs))
     named = [t for t in tuples()[::5] + [a for v in SPECIAL.values() for a in v]
